@@ -1001,6 +1001,10 @@ func (r *poolRun) executeResult(cn string, n, cnn uint64, success bool) {
 		r.expectDeltas(op, before, r.callRefundDeltas(cn, cr))
 		r.sync(cn, op, "call>refunded")
 	}
+	// the call this result is about is settled by it: it does not stay queued
+	if _, still := r.readStores(cn).calls[cnn]; still {
+		r.v05("C05/settled-bridge-call-still-stored", "%s: the result of bridge call %d was executed (external success=%v) but the call is still stored as outgoing", op, cnn, success)
+	}
 }
 
 func (r *poolRun) opConvert() {
